@@ -117,7 +117,7 @@ def _profile(cfg) -> gg.Profile:
     flags = cfg.get("flags") or {}
     return gg.Profile(
         nodes=nodes, partials=["p", "q", "rec", "gen"], depth=4, width=3,
-        text_alphabet=["a", "b", " ", "\n", "é", "漢", "😀", "x"],
+        text_alphabet=["a", "b", " ", "\n", "é", "漢", "😀", "x", "\r\n", "\r"],
         ternary=bool(flags.get("ternary_expressions")), logical_not=bool(flags.get("logical_not_operator")),
         parens=bool(flags.get("logical_parentheses")), dynamic_partial_names=False,
         filters=[f for f in sorted(gg.FILTER_ARGS) if f != "date"],
